@@ -62,13 +62,31 @@ func buildScenarios0(c *vkit.Ctx) []e2e.Scenario {
 			sc.MetricKeys = []string{"host", "source"}
 			hosts := []string{"ab", "a", "a,", "a", "x"}
 			srcs := []string{"c", "bc", "b", ",b", "x"}
+			// and tuples that differ only in where a byte that could serve as a separator sits (seeded c19-s10 joined the
+			// values with 0x1f)
+			for _, sep := range []string{"\x1f", "\x1e", "\x01", "|", ":", ";", "/"} { // not 0x00: the harness joins its own tuples with it
+				hosts = append(hosts, "w"+sep, "w")
+				srcs = append(srcs, "n", sep+"n")
+			}
 			for gi := range sc.Gens {
 				for ci := range sc.Gens[gi].Conns {
 					for ri := range sc.Gens[gi].Conns[ci].Recs {
-						k := r.Intn(len(hosts))
+						k := r.Intn(5)
 						sc.Gens[gi].Conns[ci].Recs[ri].Host = hosts[k]
 						sc.Gens[gi].Conns[ci].Recs[ri].Src = srcs[k]
 					}
+				}
+			}
+			// the separator pairs all go through one pipeline (the counter sets are per pipeline), with different counts
+			if len(sc.Gens) > 0 && len(sc.Gens[0].Conns) > 0 {
+				cs := &sc.Gens[0].Conns[0]
+				for k := 5; k < len(hosts); k++ {
+					for n := 0; n <= k%2; n++ {
+						cs.Recs = append(cs.Recs, e2e.Rec{Conn: cs.ID, Seq: len(cs.Recs) + 1, App: "appA", Sev: 6, Host: hosts[k], Src: srcs[k], Kind: "plain", Pad: 5 * k})
+					}
+				}
+				for q := range cs.Recs {
+					cs.Recs[q].Seq = q + 1
 				}
 			}
 			out = append(out, sc)
